@@ -71,13 +71,15 @@ Record screen_spec := {
   sc_skip_check : bool;            (* input_manager.skip_concurrency_check *)
   sc_pages : nat;                  (* "press ENTER to continue" prompts its content needs *)
   sc_answer0 : answer;             (* the screen's `answer` attribute before any callback ran (quit dialogs) *)
-  sc_custom : list (list scmd)     (* the screen's own signal callbacks: what callback k does when its signal is dispatched *)
+  sc_custom : list (list scmd);    (* the screen's own signal callbacks: what callback k does when its signal is dispatched *)
+  sc_setup_cmds : list scmd        (* what setup(args) itself does BEFORE it reports its result (and, when that is True, calls the
+                                      base setup): `def setup(self, args): <commands>; return super().setup(args) if ok else False` *)
 }.
 Definition default_spec : screen_spec :=
   {| sc_setup := []; sc_refresh := []; sc_show := []; sc_closed := []; sc_input := [];
      sc_input_default := ([], None); sc_prompt_none := false; sc_input_required := true;
      sc_no_separator := false; sc_skip_check := false; sc_pages := 0; sc_answer0 := AnsNoAttr;
-     sc_custom := [] |}.
+     sc_custom := []; sc_setup_cmds := [] |}.
 
 (* ---- state of the screen layer ---- *)
 Record sdata := { sd_id : nat; sd_scr : nat; sd_args : nat; sd_modal : bool }.     (* ScreenData; args: an id, 0 = None *)
@@ -133,6 +135,9 @@ Definition T_OP := 17. Definition T_REQ := 18. Definition T_ACTION := 19.
 Definition T_WAITED := 20.
 (* T_CUSTOM [k; scr; 1 + source | 0]: callback k of screen scr is invoked for one of the application's own signals *)
 Definition T_CUSTOM := 21.
+(* T_SETUP_BEGIN [entry id; scr; args]: a setup() that runs commands of its own is entered (only such setups log it;
+   T_SETUP is then logged when setup() returns, with its result) *)
+Definition T_SETUP_BEGIN := 22.
 (* stack primitives, T_STACK [kind; entry id; screen; args; modal]:  ScreenStack.append / add_first / pop *)
 Definition K_APPEND := 0. Definition K_ADD_FIRST := 1. Definition K_POP := 2.
 (* scheduler operations, T_OP [kind; screen; args], logged on entry *)
@@ -360,7 +365,7 @@ Section Screens.
     match l with [] => true | _ => nth n l (last l true) end.
 
   (* top_screen.ui_screen.setup(args): result in st_rb; the base setup sets ready and registers the source *)
-  Definition call_setup (d : sdata) : sprog :=
+  Definition call_setup_plain (d : sdata) : sprog :=
     rd (fun u => let scr := sd_scr d in
       let n := ss_n_setup (scr_of u scr) in
       let ok := nth_last (sc_setup (spec scr)) n in
@@ -368,6 +373,25 @@ Section Screens.
       ev T_SETUP [sd_id d; scr; sd_args d; b2n ok] ;;
       (if ok then wr (upd_scr scr (fun s => s <| ss_ready := true |>)) ;; PApi (ARegSource scr) else PRet) ;;
       wr (fun u => u <| st_rb := ok |>)).
+
+  (* a setup() that does something itself first (pushes a screen, opens a dialog, emits a signal, raises ...): the commands
+     run inside the setup() call, i.e. inside _process_screen and OUTSIDE its try block — an exception leaves the handler *)
+  Definition call_setup_cmds (d : sdata) (cmds : list scmd) : sprog :=
+    rd (fun u => let scr := sd_scr d in
+      let n := ss_n_setup (scr_of u scr) in
+      let ok := nth_last (sc_setup (spec scr)) n in
+      wr (upd_scr scr (fun s => s <| ss_n_setup := S n |>)) ;;
+      ev T_SETUP_BEGIN [sd_id d; scr; sd_args d] ;;
+      run_cmds scr n cmds ;;
+      ev T_SETUP [sd_id d; scr; sd_args d; b2n ok] ;;
+      (if ok then wr (upd_scr scr (fun s => s <| ss_ready := true |>)) ;; PApi (ARegSource scr) else PRet) ;;
+      wr (fun u => u <| st_rb := ok |>)).
+
+  Definition call_setup (d : sdata) : sprog :=
+    match sc_setup_cmds (spec (sd_scr d)) with
+    | [] => call_setup_plain d
+    | cmds => call_setup_cmds d cmds
+    end.
 
   Definition call_refresh (d : sdata) : sprog :=
     rd (fun u => let scr := sd_scr d in
@@ -531,6 +555,10 @@ Definition sstate0 (specs : list screen_spec) (typed : list (option str)) (quit 
      st_processing := false; st_typed := typed; st_next_sd := 0; st_rb := false; st_rv := RNone;
      st_run_empty := run_empty; st_typeahead := false; st_hobj := [] |}.
 
+
+(* no screen's setup() does anything but report its result (what the theorems proved before setup() could run commands
+   are about; the general case: props/C08.v, section "setup() with commands") *)
+Definition plain_setup (specs : nat -> screen_spec) : Prop := forall s, sc_setup_cmds (specs s) = [].
 
 (* ---- a whole application session ---- *)
 Inductive saction := SACmds (l : list scmd) | SARun.
